@@ -13,10 +13,10 @@ MANIFEST = dict(
     text='Lean 4 theorems over the sequential post-close model of every Connection/Reader/Writer method (all buffer states, sizes and arguments): Writer calls and short reads return the close error '
          '(ErrConnClosed locally, an error matching ErrEOF and ErrConnClosed after a peer close), buffered bytes stay readable, nothing blocks or dereferences a recycled buffer, Close is idempotent. '
          'The model is compared with the real code on the COMPLETE table of the property (close mode x callbacks x input x output x slot reuse x method x argument x repetition) on every run; '
-         'the property oracle judges the implementation\'s own replies: after a peer close (then user close or not) of a connection without callbacks the bytes buffered BEFORE the close must still be reported by Len() and readable, '
+         'the property oracle judges the implementation\'s own replies: after a peer close (then user close or not) the bytes buffered BEFORE the close must still be reported by Len() and readable - with or without OnConnect set (fix D19), '
          'in every other cell "still buffered" is what the connection\'s own Len() reports after the close.',
     note='Exhaustive correspondence for the table; the theorems generalise over buffer contents. Teardown exactly-once under concurrency is C05; slot isolation is C10. Methods with deadlines set are outside the table. '
-         'With a callback set the teardown recycles the input buffer also after a peer close (the table\'s variant sets OnConnect only): those cells are judged against the post-close Len().',
+         'No cell of the table sets an OnRequest handler (it would consume the input; unread input offered to a handler is recycled by the teardown).',
     technique='Lean 4 theorems over a post-close model + exhaustive cell-by-cell correspondence with the real connection', design='§6 C12')
 
 READERS = ('next', 'peek', 'skip', 'rstr', 'rbin', 'rbyte', 'slice', 'read', 'until')
@@ -38,13 +38,14 @@ def oracle(cells):
     """property stated directly on the implementation's outcomes. cells: {opline: reply}
 
     How many bytes are "still buffered" in a cell:
-    * the peer closed (modes peer, peeruser) and the connection has no callbacks, i.e. it is read through its Reader by the
-      user: what was buffered when the peer closed - "after the peer closed, the remaining buffered bytes can still be read
-      and only then reads fail".  Neither the hang-up nor the user's own Close afterwards may drop them, and Len() says so.
+    * the peer closed (modes peer, peeruser): what was buffered when the peer closed - "after the peer closed, the remaining
+      buffered bytes can still be read and only then reads fail".  Neither the hang-up, nor the teardown it starts by itself
+      when a callback is set (the table's variant sets OnConnect only: the connection is read through its Reader), nor the
+      user's own Close afterwards may drop them, and Len() says so.  (Before fix D19 closeBuffer recycled unread input
+      whenever ANY callback was set; with an OnRequest handler the input has been offered to it before the teardown - C06 -
+      and is recycled: no cell of the table sets one.)
     * every other cell: what the connection's own Len() reports after the close.  The text demands nothing about input
-      surviving a purely local close; and with a callback set the input belongs to the callbacks (it is offered to OnRequest
-      before the teardown, C06; the teardown then recycles the buffers - the table's variant sets OnConnect only, nobody
-      is left to read).
+      surviving a purely local close.
     """
     avail = {}
     for o, r in cells.items():
@@ -71,7 +72,7 @@ def oracle(cells):
                 bad.append((o, r, 'Close must be idempotent')); break
             if meth == 'isactive' and out != 'ok n:0':
                 bad.append((o, r, 'IsActive true after close')); break
-            peer_kept = mode in PEER_CLOSED and t[2] == '0'
+            peer_kept = mode in PEER_CLOSED   # with or without OnConnect: no cell of the table sets an OnRequest handler
             if peer_kept and meth == 'len' and k == 0 and out != 'ok n:%d' % (IN_BYTES if t[3] == '1' else 0):
                 bad.append((o, r, 'Len() after the peer closed must still report the %d bytes that were buffered' % (IN_BYTES if t[3] == '1' else 0))); break
             if meth in READERS and k == 0:
